@@ -1,0 +1,97 @@
+//go:build verif
+
+// Contracts for the verif build tag. This file contains no executable code that
+// the gateway uses: ghost declarations and //@ comment blocks read by /verif/gocv.
+
+package queryer
+
+import (
+	"github.com/buildbuildio/pebbles/requests"
+)
+
+// Ans is the protocol boundary: "data answers req" (element j of a batched reply
+// answers element j of the request array). Uninterpreted.
+func Ans(req *requests.Request, data map[string]interface{}) bool { panic("ghost") }
+
+// FileReq: the request carries file uploads (decided by extractFiles).
+func FileReq(req *requests.Request) bool { panic("ghost") }
+
+//@ define chunkHi(i int, m int, n int) int = ite((i+1)*m > n, n, (i+1)*m)
+//@ opaque chunkOf(p int, m int) int = p / m
+
+//@ func (*MultiOpQueryer).Query
+//@ props C11
+//@ returns res, err
+//@ requires q != nil && q.maxBatchSize >= 1
+//@ ensures[len] err == nil ==> len(res) == len(inputs)
+//@ ensures[ans] err == nil ==> forall(k, 0, len(inputs), Ans(inputs[k], res[k]))
+//@ ensures[no-partial] err != nil ==> res == nil
+//@ modifies fresh, entries(map[string]interface{}), elems(interface{}), elems(map[string]interface{})
+//@ fold 0 invariant[len] len(acc) == lInputs
+//@ fold 0 invariant[partition] forall(p, 0, lInputs, unfolding(chunkOf(p, q.maxBatchSize), 0 <= chunkOf(p, q.maxBatchSize) && chunkOf(p, q.maxBatchSize) < n && chunkOf(p, q.maxBatchSize)*q.maxBatchSize <= p && p < chunkHi(chunkOf(p, q.maxBatchSize), q.maxBatchSize, lInputs)))
+//@ fold 0 invariant[ans] forall(c, 0, n, done(c) ==> forall(p, c*q.maxBatchSize, chunkHi(c, q.maxBatchSize, lInputs), Ans(inputs[p], acc[p])))
+//@ end
+
+//@ func (*MultiOpQueryer).Query$1
+//@ props C11
+//@ returns res, err
+//@ requires q != nil && q.maxBatchSize >= 1 && lInputs == len(inputs) && lInputs > q.maxBatchSize
+//@ requires 0 <= i && i < lInputs / q.maxBatchSize + 1
+//@ ensures[index] err == nil ==> res != nil && res.Index == i && fresh(res.Response)
+//@ ensures[size] err == nil ==> len(res.Response) == chunkHi(i, q.maxBatchSize, lInputs) - i*q.maxBatchSize
+//@ ensures[ans] err == nil ==> forall(j, 0, len(res.Response), Ans(inputs[i*q.maxBatchSize+j], res.Response[j]))
+//@ modifies fresh, entries(map[string]interface{}), elems(interface{})
+//@ end
+
+//@ func (*MultiOpQueryer).Query$2
+//@ props C11
+//@ requires q != nil && q.maxBatchSize >= 1 && value != nil
+//@ requires len(acc) == lInputs && 0 <= value.Index && value.Index*q.maxBatchSize <= lInputs
+//@ requires len(value.Response) == chunkHi(value.Index, q.maxBatchSize, lInputs) - value.Index*q.maxBatchSize
+//@ requires base(value.Response) != base(acc)
+//@ ensures[len] len(result) == lInputs
+//@ ensures[splice] forall(p, 0, lInputs, result[p] == ite(value.Index*q.maxBatchSize <= p && p < chunkHi(value.Index, q.maxBatchSize, lInputs), old(value.Response[p - value.Index*q.maxBatchSize]), old(acc[p])))
+//@ modifies acc[*], value.Response[*]
+//@ end
+
+//@ func (*MultiOpQueryer).queryBatch
+//@ props C11
+//@ returns results, err
+//@ requires q != nil
+//@ ensures[len] err == nil ==> len(results) == len(inputs)
+//@ ensures[ans] err == nil ==> forall(k, 0, len(inputs), Ans(inputs[k], results[k]))
+//@ ensures[no-partial] err != nil ==> results == nil
+//@ ensures[fresh] err == nil ==> fresh(results)
+//@ modifies fresh, entries(map[string]interface{}), elems(interface{})
+//@ loop 0 invariant[own] (base(inputsToFetch) == 0 || fresh(inputsToFetch)) && (base(toFetchIndexes) == 0 || fresh(toFetchIndexes)) && fresh(results)
+//@ loop 0 invariant[lens] len(results) == len(inputs) && len(toFetchIndexes) == len(inputsToFetch)
+//@ loop 0 invariant[idx] forall(j, 0, len(toFetchIndexes), 0 <= toFetchIndexes[j] && toFetchIndexes[j] < it && inputsToFetch[j] == inputs[toFetchIndexes[j]] && !FileReq(inputs[toFetchIndexes[j]]))
+//@ loop 0 invariant[files] forall(k, 0, it, FileReq(inputs[k]) ==> Ans(inputs[k], results[k]))
+//@ loop 0 invariant[cover] forall(k, 0, it, !FileReq(inputs[k]) ==> exists(j, 0, len(toFetchIndexes), toFetchIndexes[j] == k))
+//@ loop 1 invariant[done] forall(j, 0, it, Ans(inputs[toFetchIndexes[j]], results[toFetchIndexes[j]]))
+//@ loop 1 invariant[files] forall(k, 0, len(inputs), FileReq(inputs[k]) ==> Ans(inputs[k], results[k]))
+//@ end
+
+//@ func (*MultiOpQueryer).fetch
+//@ props C11
+//@ returns results, err
+//@ requires q != nil
+//@ ensures[len] err == nil ==> len(results) == len(inputs)
+//@ assumes-post err == nil ==> forall(j, 0, len(inputs), j < len(results) ==> Ans(inputs[j], results[j].Data))
+//@ modifies fresh
+//@ end
+
+//@ func (*MultiOpQueryer).fetchFile
+//@ returns resp, err
+//@ trusted protocol boundary: multipart upload over HTTP, extractFiles decides FileReq
+//@ ensures err == nil && resp == nil ==> !FileReq(input)
+//@ ensures err == nil && resp != nil ==> FileReq(input) && fresh(resp)
+//@ ensures err == nil && resp != nil && len(resp.Errors) == 0 ==> Ans(input, resp.Data)
+//@ modifies entries(map[string]interface{}), elems(interface{})
+//@ end
+
+//@ func (*MultiOpQueryer).sendQueryRequest
+//@ returns body, err
+//@ trusted HTTP transport boundary
+//@ modifies fresh
+//@ end
